@@ -51,6 +51,11 @@ def gen_profile(rng, m_max=3):
             t = 2 if k < 3 or rng.random() < 0.5 else rng.randint(3, k)  # two-way and larger first-place ties
             r = [sorted(perm[:t])] + r[t:]
         bs.append({"r": r, "w": canon.fs(G.gen_weight(rng, wf))})
+    if len(bs) >= 2 and rng.random() < 0.1:
+        # survey-style weights normalised to mean 1: unequal, yet the total equals the number of ballots
+        tot = sum((Fraction(b["w"]) for b in bs), Fraction(0))
+        if len({b["w"] for b in bs}) >= 2:
+            bs = [dict(b, w=canon.fs(Fraction(b["w"]) * len(bs) / tot)) for b in bs]
     return {"candidates": names, "ballots": bs}
 
 
